@@ -146,6 +146,8 @@ class StepMonitor:
         self.tripped_stack: str | None = None
         self.failpoint = None
         self.failpoint_fired_at: str | None = None
+        self.cpu_budget = None
+        self.cpu0 = 0.0
         self._mon = sys.monitoring
         self._active = False
         self._coverage = coverage
@@ -175,6 +177,8 @@ class StepMonitor:
         self.budget = budget
         self.tripped_stack = None
         self.failpoint = None
+        self.cpu_budget = None
+        self.cpu0 = time.thread_time()
 
     def arm_failpoint(self, after_steps: int, exc: BaseException, only_in: str | None = None) -> None:
         """Source-free failpoint: raise `exc` out of the `after_steps`-th line event from now (optionally only counting
@@ -183,6 +187,14 @@ class StepMonitor:
 
     def _on_line(self, code, line):
         self.steps += 1
+        if self.cpu_budget is not None and not self.steps & 0x3FF and time.thread_time() - self.cpu0 > self.cpu_budget:
+            # a second, in-flight clock: thread CPU time (load independent). It catches cases that make little monitored
+            # progress per unit of work (each step opening files, parsing in C) and would outlast the wall-clock watchdog.
+            if self.tripped_stack is None:
+                self.tripped_stack = "".join(traceback.format_stack(sys._getframe(1), limit=12))
+            if time.thread_time() - self.cpu0 > self.cpu_budget + 20:
+                self.cpu_budget = None
+            raise StepBudgetExceeded(f"more than {self.cpu_budget} s of thread CPU time in one case")
         fp = self.failpoint
         if fp is not None and (fp[2] is None or fp[2] in code.co_filename):
             fp[0] -= 1
@@ -191,9 +203,13 @@ class StepMonitor:
                 self.failpoint_fired_at = f"{code.co_filename.split(REPO_MARK)[-1]}:{line}"
                 raise fp[1]
         if self.budget is not None and self.steps > self.budget:
-            self.budget = None  # raise once
-            self.tripped_stack = "".join(traceback.format_stack(sys._getframe(1), limit=12))
-            raise StepBudgetExceeded(f"more than {self.steps - 1} line events in monitored code")
+            # keep raising at every further line event: one raise can be lost (inside a destructor, a C callback, a frame
+            # that converts BaseException), and a swallowed abort would turn a decided case into a hang
+            if self.tripped_stack is None:
+                self.tripped_stack = "".join(traceback.format_stack(sys._getframe(1), limit=12))
+            if self.steps > self.budget + 200000:
+                self.budget = None  # the stack has long been unwound; never interfere with the harness's own clean-up forever
+            raise StepBudgetExceeded(f"more than {self.budget} line events in monitored code")
 
     def _on_cover(self, code, line):
         fn = code.co_filename
